@@ -8,6 +8,16 @@ ROOT = os.path.dirname(os.path.dirname(os.path.abspath(__file__)))
 props = [json.loads(l) for l in open(os.path.join(ROOT, "properties.jsonl"))]
 
 CHECKS = {
+    "C13": dict(
+        text="Packer.tla (TLC): every interleaving of the two packer threads, their writer actors (bounded queues) and finalize is "
+             "deadlock-free, terminates under weak fairness, drops nothing submitted and leaves no orphan pack. The same backup and "
+             "backup+forget+repacking prune are repeated on the real code under seeded back-end delay patterns x pack sizes from one "
+             "blob per pack upward x thread-pool sizes 1/2/8 under a watchdog; SchedTrace.tla checks that tree id and referenced "
+             "blob set are identical in all runs, that no run hangs, no orphan pack is left and the result is readable with a clean check.",
+        note="Perturbation is external (latency at back-end calls, pack boundaries, pool size); no scheduling hook inside the pipeline "
+             "stages. Copy is exercised under C12. A hang is detected by a 60 s watchdog.",
+        technique="TLC liveness/safety model of the packer pipeline + TLC validation of repeated real runs under seeded perturbations",
+        design="4/C13"),
     "C07": dict(
         text="Packer.tla models the backup pipeline (three dedup filters per packer, writer actors, shared indexer) in all "
              "interleavings: with typed identity nothing submitted is dropped, no orphan packs, termination; with untyped identity "
